@@ -192,7 +192,10 @@ def task(args):
             nonlocal val_ok, val_bad
             if first[0]:
                 first[0] = False
-                r = validate_path(h, c)
+                try:
+                    r = validate_path(h, c)
+                except Exception:
+                    r = False
                 if r is True:
                     val_ok += 1
                 elif r is False:
